@@ -2,7 +2,7 @@
 import time
 
 from ..explorer import V as _V
-from ..monitor import Monitor, V, rx_packets, fires, writes
+from ..monitor import Monitor, V, rx_packets, fires, writes, is_idle
 from ..scen import Std
 from ..world import World
 
@@ -61,7 +61,7 @@ class Mon(Monitor):
                         out.append(V('fire', 'refusal-failed-with/%s' % val, 'CONNACK(%d): Deferred failed with %s' % (rcode, val)))
                     else:
                         self.see('refused')
-                        if state_name(c) != 'IdleState' and not c.lost:
+                        if not is_idle(c) and not c.lost:
                             out.append(V('idle', 'not-idle-after-refusal/%s' % state_name(c), 'state %s after CONNACK(%d)' % (state_name(c), rcode)))
                 elif ev[0] == 'tick' and w.tick_info and w.tick_info[0] == 'connectError':
                     due = (c.keepalive or 10)
@@ -90,7 +90,7 @@ class Mon(Monitor):
         for o in w.new_obs():
             if o[0] == 'lostdone':
                 c = w.conns[o[1]]
-                if state_name(c) != 'IdleState':
+                if not is_idle(c):
                     out.append(V('idle', 'not-idle-after-loss/%s/on-%s' % (state_name(c), ev[0]), 'state %s after connectionLost' % state_name(c)))
                 else:
                     self.see('idle-after-loss')
